@@ -1,12 +1,15 @@
 (** C05 – redraw throttling.  Executable model, definitions only.
 
-    Transcribes (tree at /repo HEAD, i.e. after fix commits e4a1051 and 3894c8b)
-      - RateLimiter::{new,allow}            src/draw_target.rs:428-480
-      - AtomicPosition::{new,allow,reset}   src/state.rs:535-607
-      - the request paths that feed them    src/progress_bar.rs:221-291, 356-358
-                                            src/state.rs:74-93, 138-152, 195-218
+    Transcribes (tree at /repo HEAD 2747e49, i.e. after fix commits e4a1051 and 3894c8b)
+      - RateLimiter::{new,allow}            src/draw_target.rs:441-493
+      - AtomicPosition::{new,allow,reset}   src/state.rs:540-612
+      - the request paths that feed them    src/progress_bar.rs:231-258, 295-301, 309-311,
+                                            337-341, 366-368
+                                            src/state.rs:74-98 (reset), 143-157 (tick,
+                                            update_estimate_and_draw), 200-223 (draw)
                                             src/draw_target.rs:162-208 (drawable)
-                                            src/multi.rs:271-364 (MultiState::draw)
+                                            src/multi.rs:276-372 (MultiState::draw),
+                                            386-393 (draw_state)
     Instants are integer nanoseconds (the mock clock of src/verif_clock.rs is a u64 of
     nanoseconds; std::time::Instant has the same resolution).  Machine integers are [N]
     with every cast / saturation / possible panic written out. *)
@@ -16,73 +19,73 @@ From IndGen Require Import Constants.
 (** * RateLimiter (one per draw target) *)
 
 (* struct RateLimiter { interval: u32 /* ns */, capacity: u8, prev: Instant }
-   draw_target.rs:428-433 *)
+   draw_target.rs:441-446 *)
 Record rl := mk_rl { rl_interval : N; rl_cap : N; rl_prev : N }.
 
-(* draw_target.rs:441  interval: (1_000_000_000 + (rate as u32) - 1) / (rate as u32)
+(* draw_target.rs:454  interval: (1_000_000_000 + (rate as u32) - 1) / (rate as u32)
    u32 arithmetic; for rate in 1..=255 the numerator is < 2^32 (no wrap); rate = 0 is a
    documented panic (division by zero) and outside the property's domain. *)
 Definition rl_interval_of (rate : N) : N := (RL_INTERVAL_NUMERATOR_NS + rate - 1) / rate.
 
-(* draw_target.rs:437-445  RateLimiter::new – reads the clock *)
+(* draw_target.rs:450-458  RateLimiter::new – reads the clock *)
 Definition rl_new (rate now : N) : rl :=
   {| rl_interval := rl_interval_of rate; rl_cap := RL_MAX_BURST; rl_prev := now |}.
 
-(* draw_target.rs:447-477  RateLimiter::allow.
-   Panic 1 = the `- 1` at line 470 underflows (u128; debug builds panic, release builds
+(* draw_target.rs:460-490  RateLimiter::allow.
+   Panic 1 = the `- 1` at line 483 underflows (u128; debug builds panic, release builds
              would wrap and store 255);
-   Panic 2 = `checked_sub(..).unwrap()` at lines 473-475 is None. *)
+   Panic 2 = `checked_sub(..).unwrap()` at lines 486-488 is None. *)
 Definition rl_allow (s : rl) (now : N) : outcome (rl * bool) :=
-  if now <? rl_prev s then Ok (s, false)                          (* 448-450 *)
+  if now <? rl_prev s then Ok (s, false)                          (* 461-463 *)
   else
-    let elapsed := now - rl_prev s in                             (* 452 *)
-    if (rl_cap s =? 0) && (elapsed <? rl_interval s)              (* 456 *)
-    then Ok (s, false)                                            (* 457 *)
+    let elapsed := now - rl_prev s in                             (* 465 *)
+    if (rl_cap s =? 0) && (elapsed <? rl_interval s)              (* 469 *)
+    then Ok (s, false)                                            (* 470 *)
     else
-      let new := elapsed / rl_interval s in                       (* 464 *)
-      let remainder := elapsed mod rl_interval s in               (* 465 *)
-      let m := N.min RL_MAX_BURST (rl_cap s + new) in             (* 470, u128 *)
-      if m =? 0 then Panic 1                                      (* 470: `- 1` *)
-      else if now <? remainder mod U64 then Panic 2               (* 473-475 *)
+      let new := elapsed / rl_interval s in                       (* 477 *)
+      let remainder := elapsed mod rl_interval s in               (* 478 *)
+      let m := N.min RL_MAX_BURST (rl_cap s + new) in             (* 483, u128 *)
+      if m =? 0 then Panic 1                                      (* 483: `- 1` *)
+      else if now <? remainder mod U64 then Panic 2               (* 486-488 *)
       else Ok ({| rl_interval := rl_interval s;
-                  rl_cap := (m - 1) mod U8;                       (* 470: `as u8` *)
-                  rl_prev := now - remainder mod U64 |},          (* 474: `as u64` *)
-               true).                                             (* 476 *)
+                  rl_cap := (m - 1) mod U8;                       (* 483: `as u8` *)
+                  rl_prev := now - remainder mod U64 |},          (* 487: `as u64` *)
+               true).                                             (* 489 *)
 
 (** * AtomicPosition's limiter (one per bar) *)
 
 (* struct AtomicPosition { pos, capacity: AtomicU8, prev: AtomicU64 /* ns after start */,
-   start: Instant }   state.rs:535-540 *)
+   start: Instant }   state.rs:540-545 *)
 Record ap := mk_ap { ap_cap : N; ap_prev : N; ap_start : N }.
 
-(* state.rs:543-550 *)
+(* state.rs:548-555 *)
 Definition ap_new (now : N) : ap := {| ap_cap := AP_MAX_BURST; ap_prev := 0; ap_start := now |}.
 
-(* state.rs:552-585  AtomicPosition::allow (single caller; the two atomics are read and
+(* state.rs:557-590  AtomicPosition::allow (single caller; the two atomics are read and
    written as one step – concurrent callers are outside the property, see docs/C05.md).
-   Panic 3 = the `- 1` at line 579 underflows; Panic 4 = `elapsed - remainder` at line 583
+   Panic 3 = the `- 1` at line 584 underflows; Panic 4 = `elapsed - remainder` at line 588
    underflows (u64, overflow checks on). *)
 Definition ap_allow (s : ap) (now : N) : outcome (ap * bool) :=
-  if now <? ap_start s then Ok (s, false)                         (* 553-555 *)
+  if now <? ap_start s then Ok (s, false)                         (* 558-560 *)
   else
-    let capacity := ap_cap s in                                   (* 557 *)
-    let prev := ap_prev s in                                      (* 559 *)
-    let elapsed := (now - ap_start s) mod U64 in                  (* 561: as_nanos() as u64 *)
-    let diff := sat_sub elapsed prev in                           (* 563 *)
-    if (capacity =? 0) && (diff <? AP_INTERVAL_NS)                (* 568 *)
-    then Ok (s, false)                                            (* 569 *)
+    let capacity := ap_cap s in                                   (* 562 *)
+    let prev := ap_prev s in                                      (* 564 *)
+    let elapsed := (now - ap_start s) mod U64 in                  (* 566: as_nanos() as u64 *)
+    let diff := sat_sub elapsed prev in                           (* 568 *)
+    if (capacity =? 0) && (diff <? AP_INTERVAL_NS)                (* 573 *)
+    then Ok (s, false)                                            (* 574 *)
     else
-      let new := diff / AP_INTERVAL_NS in                         (* 576 *)
-      let remainder := diff mod AP_INTERVAL_NS in                 (* 576 *)
-      let m := N.min AP_MAX_BURST (capacity + new) in             (* 579, u128 *)
-      if m =? 0 then Panic 3                                      (* 579: `- 1` *)
-      else if elapsed <? remainder then Panic 4                   (* 583 *)
-      else Ok ({| ap_cap := (m - 1) mod U8;                       (* 579: `as u8`, 582 *)
-                  ap_prev := elapsed - remainder;                 (* 583 *)
+      let new := diff / AP_INTERVAL_NS in                         (* 581 *)
+      let remainder := diff mod AP_INTERVAL_NS in                 (* 581 *)
+      let m := N.min AP_MAX_BURST (capacity + new) in             (* 584, u128 *)
+      if m =? 0 then Panic 3                                      (* 584: `- 1` *)
+      else if elapsed <? remainder then Panic 4                   (* 588 *)
+      else Ok ({| ap_cap := (m - 1) mod U8;                       (* 584: `as u8`, 587 *)
+                  ap_prev := elapsed - remainder;                 (* 588 *)
                   ap_start := ap_start s |},
-               true).                                             (* 584 *)
+               true).                                             (* 589 *)
 
-(* state.rs:587-591  AtomicPosition::reset – position to 0 (modelled in the bar below) and
+(* state.rs:592-596  AtomicPosition::reset – position to 0 (modelled in the bar below) and
    prev := saturating_duration_since(start).as_nanos() as u64; capacity is left alone. *)
 Definition ap_reset (s : ap) (now : N) : ap :=
   {| ap_cap := ap_cap s; ap_prev := (now - ap_start s) mod U64; ap_start := ap_start s |}.
@@ -117,7 +120,7 @@ Fixpoint ap_run (s : ap) (ops : list apop) : list (outcome bool) :=
 Definition frame := (N * N * N)%type.
 
 (* per bar: the live ProgressState fields that are rendered, the bar's position limiter, and –
-   for a member of a MultiProgress – the member's stored DrawState (multi.rs:378-385), i.e. what
+   for a member of a MultiProgress – the member's stored DrawState (multi.rs:386-393, 487-491), i.e. what
    the bar looked like at its most recent draw request, painted or not. *)
 Record mbar := mk_mbar { m_pos : N; m_len : N; m_msg : N; m_ap : ap; m_shown : option frame }.
 
@@ -129,10 +132,10 @@ Definition live (b : mbar) : frame := (m_pos b, m_len b, m_msg b).
 Record sys := mk_sys { s_multi : bool; s_rl : option rl; s_bars : list mbar }.
 
 Inductive bop :=
-| OInc (d : N) | ODec (d : N) | OSetPos (p : N)     (* progress_bar.rs:233-248, 285-291 *)
-| OTick                                             (* progress_bar.rs:221-230 *)
-| OSetMsg (m : N) | OSetLen (l : N)                 (* progress_bar.rs:327-331, 299-301 *)
-| OReset.                                           (* progress_bar.rs:356-358, state.rs:74-93 *)
+| OInc (d : N) | ODec (d : N) | OSetPos (p : N)     (* progress_bar.rs:243-258, 295-301 *)
+| OTick                                             (* progress_bar.rs:231-240 *)
+| OSetMsg (m : N) | OSetLen (l : N)                 (* progress_bar.rs:337-341, 309-311 *)
+| OReset.                                           (* progress_bar.rs:366-368, state.rs:74-98 *)
 
 Fixpoint set_nth {A} (i : nat) (x : A) (l : list A) : list A :=
   match l, i with
@@ -155,13 +158,13 @@ Definition rl_opt_allow (r : option rl) (now : N) : outcome (option rl * bool) :
               end
   end.
 
-(* BarState::draw(false, now) of an unfinished bar (state.rs:195-218): [b] is bar [i] with the
+(* BarState::draw(false, now) of an unfinished bar (state.rs:200-223): [b] is bar [i] with the
    caller's state change already applied.
    stand-alone: ask the limiter; if allowed render the LIVE state and paint (one flush).
    member of a multi: drawable() is always Some (draw_target.rs:183-191), the member's DrawState
-   is re-rendered from the live state first (state.rs:207-216), then MultiState::draw asks the
-   multi's limiter (multi.rs:327) and paints the stored rows of all members in order
-   (multi.rs:342-347). *)
+   is re-rendered from the live state first (state.rs:212-219), then MultiState::draw asks the
+   multi's limiter (multi.rs:331) and paints the stored rows of all members in order
+   (multi.rs:346-351). *)
 Definition sys_request (s : sys) (i : nat) (b : mbar) (now : N)
   : outcome (sys * option (list frame)) :=
   if s_multi s then
@@ -178,7 +181,7 @@ Definition sys_request (s : sys) (i : nat) (b : mbar) (now : N)
     end.
 
 (* inc/dec/set_position: the position is stored first, then `if self.pos.allow(now)
-   { self.tick_inner(now) }` (progress_bar.rs:233-248, 285-291).
+   { self.tick_inner(now) }` (progress_bar.rs:243-258, 295-301).
    Output: (did the update reach BarState::tick, painted frame). *)
 Definition via_ap (s : sys) (i : nat) (b : mbar) (now : N)
   : outcome (sys * (bool * option (list frame))) :=
@@ -204,9 +207,9 @@ Definition sys_step (s : sys) (now : N) (i : N) (o : bop)
   | None => Ok (s, (false, None))
   | Some b =>
       match o with
-      | OInc d => via_ap s k (with_pos b (wadd64 (m_pos b) d)) now       (* state.rs:593-595 *)
-      | ODec d => via_ap s k (with_pos b (wsub64 (m_pos b) d)) now       (* state.rs:597-599 *)
-      | OSetPos p => via_ap s k (with_pos b p) now                       (* state.rs:601-603 *)
+      | OInc d => via_ap s k (with_pos b (wadd64 (m_pos b) d)) now       (* state.rs:598-600 *)
+      | ODec d => via_ap s k (with_pos b (wsub64 (m_pos b) d)) now       (* state.rs:602-604 *)
+      | OSetPos p => via_ap s k (with_pos b p) now                       (* state.rs:606-608 *)
       | OTick =>
           match sys_request s k b now with
           | Panic e => Panic e | Ok (s', fr) => Ok (s', (true, fr)) end
@@ -217,7 +220,7 @@ Definition sys_step (s : sys) (now : N) (i : N) (o : bop)
           match sys_request s k (mk_mbar (m_pos b) l (m_msg b) (m_ap b) (m_shown b)) now with
           | Panic e => Panic e | Ok (s', fr) => Ok (s', (true, fr)) end
       | OReset =>
-          (* state.rs:83-91: pos.reset(now), trackers get reset() (not tick()), draw(false) *)
+          (* state.rs:74-97: pos.reset(now), trackers get reset() (not tick()), draw(false) *)
           match sys_request s k (mk_mbar 0 (m_len b) (m_msg b) (ap_reset (m_ap b) now) (m_shown b)) now with
           | Panic e => Panic e | Ok (s', fr) => Ok (s', (false, fr)) end
       end
@@ -272,6 +275,11 @@ Fixpoint nondec (lo : N) (ts : list N) : Prop :=
   end.
 
 Definition apop_time (o : apop) : N := match o with AReq t | ARst t => t end.
+
+(* every instant is less than 2^64 ns (584 years) after the bar's creation [st], so that
+   `as_nanos() as u64` (state.rs:566) does not truncate *)
+Definition ap_times_ok (st : N) (ops : list apop) : Prop :=
+  forall o, In o ops -> apop_time o < st + U64.
 
 (* number of requests answered `true` whose instant lies in the closed window [lo, hi] *)
 Fixpoint allowed_in (lo hi : N) (ts : list N) (vs : list (outcome bool)) : N :=
@@ -345,6 +353,34 @@ Fixpoint last_paint (acc : option N) (ts : list N) (vs : list sout) : option N :
 (* calls on the single bar of a stand-alone system *)
 Definition std_ops (ops : list (N * bop)) : list (N * N * bop) :=
   map (fun '(t, o) => (t, 0, o)) ops.
+
+(** * Specification vocabulary for the system-level theorems (frames of [sys_run], any
+      configuration: stand-alone bar or members of a MultiProgress) *)
+
+Definition op_time (c : N * N * bop) : N := fst (fst c).
+
+(* number of calls that painted a (non-forced) frame at an instant in the closed window [lo, hi] *)
+Fixpoint frames_in (lo hi : N) (ts : list N) (vs : list sout) : N :=
+  match ts, vs with
+  | t :: tr, v :: vr =>
+      (match v with
+       | Ok (_, Some _) => if (lo <=? t) && (t <=? hi) then 1 else 0
+       | _ => 0
+       end) + frames_in lo hi tr vr
+  | _, _ => 0
+  end.
+
+(* did call [o] on bar [i] ask the draw target for a (non-forced) redraw?  tick / set_message /
+   set_length / reset of an existing bar always do (state.rs:156, :96 `self.draw(false, now)`);
+   inc / dec / set_position do iff the bar's position limiter let them through, which is what the
+   [reached] flag of the call's outcome reports (progress_bar.rs:246, 255, 298) *)
+Definition requested (nbars : nat) (i : N) (o : bop) (reached : bool) : bool :=
+  (N.to_nat i <? nbars)%nat &&
+  match o with OInc _ | ODec _ | OSetPos _ => reached | _ => true end.
+
+(* every call addresses an existing bar *)
+Definition ops_valid (nbars : nat) (ops : list (N * N * bop)) : Prop :=
+  Forall (fun c => (N.to_nat (snd (fst c)) < nbars)%nat) ops.
 
 (** * The limiter BEFORE fix commits e4a1051 / 3894c8b (documentation only: defects D12, D13).
     interval = floor(1000 / rate) milliseconds; the cap was applied after the `- 1`. *)
